@@ -259,8 +259,12 @@ def run_property(prop, tier, seed):
         wall = time.time() - t0
         evid = build_evidence(prop, tier, seed, P, specs, results, cls, regen_info, premise_out, incon, violations,
                               known_hits, notes, wall, replay_paths, prem_viol)
-        os.makedirs(EVID, exist_ok=True)
-        json.dump(evid, open(os.path.join(EVID, prop + ".json"), "w"), indent=1, default=str)
+        # evidence under /verif/evidence describes /repo only; a run against another tree
+        # (VERIF_REPO=<scratch worktree>, used to evaluate seeded changes) writes next to its replays
+        other = os.environ.get("VERIF_REPO", "/repo").rstrip("/") != "/repo"
+        edir = os.path.join(VERIF, "replays", "evidence_other_tree") if other else EVID
+        os.makedirs(edir, exist_ok=True)
+        json.dump(evid, open(os.path.join(edir, prop + ".json"), "w"), indent=1, default=str)
         # ---- report ----
         for k, n, v in known_hits:
             log("KNOWN-FINDING: property=%s %s" % (prop, k["what"]))
